@@ -71,6 +71,15 @@ type FuncSpec struct {
 	File     string
 	Line     int
 	Lemma    bool
+	Events   []EventClause
+}
+
+// EventClause: calling the function IS the ghost event `Name(Args...)`: it is appended to the ghost
+// trace of that name at every call site (definitional, nothing to verify in the body).
+type EventClause struct {
+	Name string
+	Args []SExpr
+	Text string
 }
 
 type PredDef struct {
@@ -93,11 +102,12 @@ type SpecSet struct {
 	Consts map[string]*big.Int
 	Axioms []Clause
 	HFns   map[string]*UFn
+	EvDecl map[string][]Sort
 	Files  []string
 }
 
 func NewSpecSet() *SpecSet {
-	return &SpecSet{Funcs: map[string]*FuncSpec{}, Preds: map[string]*PredDef{}, UFns: map[string]*UFn{}, Consts: map[string]*big.Int{}, HFns: map[string]*UFn{}}
+	return &SpecSet{Funcs: map[string]*FuncSpec{}, Preds: map[string]*PredDef{}, UFns: map[string]*UFn{}, Consts: map[string]*big.Int{}, HFns: map[string]*UFn{}, EvDecl: map[string][]Sort{}}
 }
 
 func sortByName(s string) (Sort, error) {
@@ -137,7 +147,7 @@ func (ss *SpecSet) LoadSpecFile(path, pkgPath string) error {
 	var raws []rawClause
 	keywords := map[string]bool{"func": true, "requires": true, "ensures": true, "invariant": true, "assigns": true,
 		"trusted": true, "maypanic": true, "pure": true, "pred": true, "ufn": true, "const": true, "axiom": true,
-		"decreases": true, "opt": true, "hfn": true, "lemma": true, "nopanic": true, "end": true}
+		"decreases": true, "opt": true, "hfn": true, "event": true, "evdecl": true, "lemma": true, "nopanic": true, "end": true}
 	for i, line := range strings.Split(string(data), "\n") {
 		t := strings.TrimSpace(line)
 		if pkgPath != "" || strings.HasSuffix(path, ".go") {
@@ -187,7 +197,7 @@ func (ss *SpecSet) LoadSpecFile(path, pkgPath string) error {
 			fs.Opts = map[string]string{}
 			fs.Lemma = r.kw == "lemma"
 			key := fs.Key
-			if pkgPath != "" {
+			if pkgPath != "" && !strings.HasPrefix(fs.Key, "dyn:") {
 				key = pkgPath + "::" + fs.Key
 			}
 			if _, dup := ss.Funcs[key]; dup {
@@ -235,6 +245,16 @@ func (ss *SpecSet) LoadSpecFile(path, pkgPath string) error {
 					cur.Assigns = append(cur.Assigns, a)
 				}
 			}
+		case "event":
+			e, err := ParseSpecExpr(r.text)
+			if err != nil {
+				return fail(err)
+			}
+			call, ok := e.(SCall)
+			if !ok || cur == nil {
+				return fail(fmt.Errorf("event needs the form name(args...) inside a func"))
+			}
+			cur.Events = append(cur.Events, EventClause{Name: call.Fn, Args: call.Args, Text: r.text})
 		case "trusted":
 			cur.Trusted = true
 		case "maypanic":
@@ -283,6 +303,26 @@ func (ss *SpecSet) LoadSpecFile(path, pkgPath string) error {
 			}
 			u.Ret = s
 			ss.UFns[u.Name] = u
+		case "evdecl":
+			// evdecl name(Sort, Sort, ...): argument sorts of a ghost event trace
+			op := strings.Index(r.text, "(")
+			cp := strings.LastIndex(r.text, ")")
+			if op < 0 || cp < op {
+				return fail(fmt.Errorf("bad evdecl"))
+			}
+			var sorts []Sort
+			for _, a := range strings.Split(r.text[op+1:cp], ",") {
+				a = strings.TrimSpace(a)
+				if a == "" {
+					continue
+				}
+				so, err := sortByName(a)
+				if err != nil {
+					return fail(err)
+				}
+				sorts = append(sorts, so)
+			}
+			ss.EvDecl[strings.TrimSpace(r.text[:op])] = sorts
 		case "hfn":
 			// hfn name Sort : ghost heap function from object ids to Sort
 			parts := strings.Fields(r.text)
